@@ -264,7 +264,7 @@ def _gen_defs_spec(rng, seed, index, tier):
             steps.append({"op": "mutate", "m": m})
             steps.append({"op": "defs"})
     return {"property": PROP, "index": index, "seed": seed, "base": base, "steps": steps,
-            "kind": "defs"}
+            "kind": "defs", "bystander": ops.chance(0.6), "scribble": ops.chance(0.4)}
 
 
 def sample(spec):
@@ -560,6 +560,15 @@ def _execute_defs(spec, world, shape, res):
     C = res["counters"]
     log = world.log
     cls = type(shape).__name__
+    other = None
+    if spec.get("bystander"):
+        # a second live object of the same class, read before every reading of the first
+        with world.step(0, 1, use_fs=False):
+            try:
+                other = gen.build(gen.sibling(spec["base"]))
+                C["runs_with_bystander"] += 1
+            except Exception:  # noqa: BLE001 - the sibling is only a bystander
+                other = None
     for si, st in enumerate(spec["steps"]):
         C["steps"] += 1
         if st["op"] == "mutate":
@@ -584,7 +593,14 @@ def _execute_defs(spec, world, shape, res):
             continue
         before = len(res["violations"])
         with world.step(11, 13, use_fs=False):
-            c13_defs.check_definitions(shape, res, si)
+            if other is not None:
+                c13_defs.check_definitions(other, res, si)
+            if len(res["violations"]) == before:
+                # hostile caller: the balls handed out in the first pass are edited by the
+                # caller (they are the caller's objects); the second pass must still hold
+                c13_defs.check_definitions(shape, res, si, scribble=bool(spec.get("scribble")))
+                if spec.get("scribble") and len(res["violations"]) == before:
+                    c13_defs.check_definitions(shape, res, si)
         res["nontrivial"] = True
         res["sets"]["cls_x_script"].add("%s:defs" % cls)
         log.add("defs", si, len(res["violations"]) - before)
